@@ -169,6 +169,10 @@ class FunctionType:
     def Arguments(self):
         return self.__argumentTypes
 
+    @property
+    def Results(self):
+        return self.__returnTypes
+
     def WriteTo(self, output: BinaryIO):
         WriteByte(output, ValueType.function.value)
         WriteInteger(output, len(self.__argumentTypes))
